@@ -41,11 +41,19 @@ func (c14) Gen(tier string, seed int64, emit func([]Ev)) {
 			// elementary PIDs that differ from one another in a single bit (every bit position in turn): a membership
 			// test that folds or hashes PIDs confuses exactly such neighbours
 			base := 0x20 + r.Intn(0x1f00)
+			taken := map[int]bool{}
 			for i := range pmt.Streams {
-				pmt.Streams[i].Pid = base
-				if i > 0 {
-					pmt.Streams[i].Pid = base ^ (1 << uint((i-1+si)%13))
+				q := pmt.Streams[i].Pid
+				if i == 0 {
+					q = base
+				} else if i <= 13 {
+					q = base ^ (1 << uint((i-1+si)%13))
 				}
+				for taken[q] { // (streams beyond the thirteen neighbours keep a PID of their own: elementary PIDs stay distinct)
+					q = 0x20 + r.Intn(0x1f00)
+				}
+				taken[q] = true
+				pmt.Streams[i].Pid = q
 			}
 		}
 		sec := pmtSection(pmt)
